@@ -261,6 +261,9 @@ func (sa *SinkAnalysis) classify(v ssa.Value, seen map[ssa.Value]bool, depth int
 		}
 		return out
 	case *ssa.Slice:
+		if lit, ok := byteLiteral(x); ok && lit != nil {
+			return Data{Kind: DConst, Text: string(lit), Known: true} // []byte{'a', 'b'} (also the variadic tail of append)
+		}
 		d := sa.classify(x.X, seen, depth+1)
 		d.Known = false
 		return d
@@ -464,6 +467,11 @@ func (sa *SinkAnalysis) classifyCall(c *ssa.Call, seen map[ssa.Value]bool, depth
 	switch name {
 	case "strconv.Itoa", "strconv.FormatInt", "strconv.FormatUint":
 		return Data{Kind: DInt}
+	case "strconv.AppendInt", "strconv.AppendUint":
+		// digits appended to a prefix: the class of the prefix joined with Int
+		out := joinData(sa.classify(com.Args[0], seen, depth+1), Data{Kind: DInt})
+		out.Known = false
+		return out
 	case "fmt.Sprintf", "fmt.Sprint":
 		ops := sa.variadicOperands(com.Args[len(com.Args)-1])
 		var out Data
